@@ -336,7 +336,7 @@ prop("C18",
      text="Proved over R for the formulas as written in haversine.go/equirect.go: the haversine formula equals radius times the angle theta in [0,pi] with cos theta = the dot product of the two unit vectors "
           "(so it is the great-circle distance exactly, and zero only for coinciding positions); distance symmetric, linear in the radius, zero for identical positions (default and fast method).  The accuracy "
           "clauses (1e-9 relative default, 1e-5 fast under 10 km below 80 degrees, distance to a line within 1% + 1 mm) are tested per generated pair / (segment, position) against an independent "
-          "float64 computation with an absolute floor of 5 nm (the oracle's resolution).",
+          "float64 computation: the central angle from the haversine of coordinate differences formed in degrees below 10 km (good to a few 1e-16 relative, cross-checked with 60-digit arithmetic; no absolute floor - that floor had hidden the defect D26) and from the unit vectors above.",
      rule="1500 pairs 5 cm-1500 km at any bearing and |lat| < 85 (5% identical, 15% other radii) + 1500 (segment 0.5 m-1.5 km, position within +-150 m beside and -0.5..1.5 lengths along), away from the 180th meridian; "
           "distinct = distinct JSON; all non-trivial",
      assumptions=["Go's math.Sin/Cos/Asin/Sqrt are not modelled; the Coq functions are the real-number formulas"],
